@@ -164,6 +164,15 @@ def run(ctx):
     names += ["select", "from", "order by", "group", "a.b.c", "tbl.col", "x y.z w", "end", "null", "true"]
     if not ctx.thorough:
         names = [n for i, n in enumerate(names) if i % 4 == ctx.seed % 4]
+    # a reserved word followed directly by a letter outside ASCII: the keyword matchers end a keyword there (their word characters are ASCII),
+    # so the parser's guards read "forêt" as FOR + "êt" and format has to quote it
+    try:
+        from mo_sql_parsing.keywords import RESERVED
+        import extract_tables
+        rw = sorted({w[0] for w in extract_tables.spellings(RESERVED) if len(w) == 1 and w[0].isalpha()})
+    except Exception:
+        rw = ["for", "as", "set", "null", "in", "is", "or", "on", "select", "from", "end", "not"]
+    names += [w + suf for w in (rw if ctx.thorough else [x for i, x in enumerate(rw) if i % 3 == ctx.seed % 3] + ["for", "as", "null", "select"]) for suf in ("ê", "Üx")]
     styles = [("double", lambda n: '"' + n.replace('"', '""') + '"', ["common_parser", "sqlserver_parser"]),
               ("backtick", lambda n: "`" + n.replace("`", "``") + "`", ["common_parser", "mysql_parser", "sqlserver_parser", "bigquery_parser"]),
               ("bracket", lambda n: "[" + n.replace("]", "]]") + "]", ["sqlserver_parser"])]
